@@ -293,8 +293,9 @@ def write_evidence(ctx, level, checker_cmd, n_viol):
         "wall_s": round(time.time() - ctx.t0, 2),
         "violations": n_viol,
     }
-    d = ROOT / "evidence"
-    d.mkdir(exist_ok=True)
+    # tooling runs against scratch trees (tools_mutate.py) redirect their output
+    d = Path(os.environ["VERIF_EVIDENCE_DIR"]) if os.environ.get("VERIF_EVIDENCE_DIR") else ROOT / "evidence"
+    d.mkdir(parents=True, exist_ok=True)
     (d / f"{ctx.pid}.json").write_text(json.dumps(ev, indent=1, default=str) + "\n")
 
 
@@ -313,7 +314,7 @@ def finish(ctx, level="proof", checker_cmd="", write=True):
             real.append(v)
     # failed obligations with no failing input are violations too (no-failing-input-found)
     failed = [o for o in ctx.obligations if not o[1]]
-    rdir = ROOT / "replays" / ctx.pid
+    rdir = (Path(os.environ["VERIF_REPLAY_DIR"]) if os.environ.get("VERIF_REPLAY_DIR") else ROOT / "replays") / ctx.pid
     lines = []
     if real or failed:
         rdir.mkdir(parents=True, exist_ok=True)
